@@ -39,7 +39,7 @@ class PtrNorm(object):
             t = (x.get('type') or {}).get('qualType', '')
             if t.endswith('*') or t.endswith('* const'):
                 return None
-            return ('int', None, {'%s#%s' % ((x.get('referencedDecl') or {}).get('name'), i): 1})
+            return ('int', None, {self.keys.key(x): 1})
         if k == 'UnaryOperator':
             op = x.get('opcode')
             r = self.norm(kids(x)[0])
@@ -90,8 +90,10 @@ class PtrNorm(object):
                     return None
                 return ('elem', self.keys.key(args[0]), rb[2])
             return None
-        if k == 'MemberExpr' and x.get('isArrow'):
-            # p->field : field of element *p ; callers peel the member themselves
+        if k == 'MemberExpr':
+            t = (x.get('type') or {}).get('qualType', '')
+            if not t.endswith('*'):
+                return ('int', None, {self.keys.key(x): 1})
             return None
         return None
 
